@@ -72,6 +72,22 @@ def _one(acc, case):
         acc.violation(case["algo"], cfg_str(case), inp_str(case), kind, exp, got, case)
 
 
+def _sums_only(acc, case):
+    """the same clauses read off the sums-only output (another bins-manager computes it): every reported sum >= B, the reported
+    sums total at most the input, and what they leave over is < B"""
+    obs = repo.call(case)
+    acc.ran(case["algo"]); acc.check()
+    if obs[0] == "exc":
+        acc.violation(case["algo"], cfg_str(case), inp_str(case), "raises", "sums", f"{obs[1]}: {obs[2]}", case); return
+    sums = list(obs[1]); B = case["B"]; total = sum(case["items"])
+    if any(s < B for s in sums):
+        acc.violation(case["algo"], cfg_str(case), inp_str(case), "uncovered_bin", f">= {B}", sums, case)
+    elif sum(sums) > total:
+        acc.violation(case["algo"], cfg_str(case), inp_str(case), "invented_or_reused", f"sums total <= {total}", sums, case)
+    elif not total - sum(sums) < B:
+        acc.violation(case["algo"], cfg_str(case), inp_str(case), "waste", f"unused total < {B}", total - sum(sums), case)
+
+
 def run_task(task):
     scope, chunk, B, fmts = task
     acc = Acc(ID, scope)
@@ -80,10 +96,15 @@ def run_task(task):
             acc.point(nontrivial=(sum(ms) >= B))
             for a in scopes.COVER_ALGOS:
                 _one(acc, {"algo": a, "items": list(ms), "B": B, "fmt": fmt})
+                if fmt == "list" and (scope in ("big", "huge") or scope.startswith("fractional") or len(ms) <= 4):
+                    _sums_only(acc, {"algo": a, "items": list(ms), "B": B, "fmt": fmt, "out": "Sums"})
         if ms == chunk[0]:
             acc.sample({"items": list(ms), "binsize": B, "formats": list(fmts)})
     return acc
 
 
 def replay(case, acc):
-    _one(acc, case)
+    if case.get("out") == "Sums":
+        _sums_only(acc, case)
+    else:
+        _one(acc, case)
